@@ -45,10 +45,10 @@ func (Engine) Meta() simrt.Meta {
 			"the isolated reference is the same operation as the first work of a fresh process",
 			"race reports are classified by the first frame inside module code of each of the two accesses; reports whose frames are all inside the listed dependency packages are known findings",
 		},
-		RealCode:    []string{"internal/ebnf/parser/spec (Parse, DFA, LALRParsingTable)", "internal/ebnf/parser/ast", "internal/regex/parser (nfa, ast, ToDFA)", "internal/ebnf/lexer, parser", "moorara/algo"},
-		Stubs:       []string{"goroutine scheduling (simsched: tape-chosen worker at every yield point)", "io.Reader (strings.Reader)"},
-		FaultKinds:  []string{"context_switches", "preempt_at_global_access", "history_after_rejected_input"},
-		CaseTimeout: 300 * time.Second,
+		RealCode:           []string{"internal/ebnf/parser/spec (Parse, DFA, LALRParsingTable)", "internal/ebnf/parser/ast", "internal/regex/parser (nfa, ast, ToDFA)", "internal/ebnf/lexer, parser", "moorara/algo"},
+		Stubs:              []string{"goroutine scheduling (simsched: tape-chosen worker at every yield point)", "io.Reader (strings.Reader)"},
+		FaultKinds:         []string{"context_switches", "preempt_at_global_access", "history_after_rejected_input"},
+		CaseTimeout:        300 * time.Second,
 		FreshProcessShrink: true,
 	}
 }
